@@ -414,12 +414,23 @@ func expand(yylex yyLexer, x expr) (int, bool) {
 		return x.n, true
 	} else if v, set := yylex.(*lexer).env.Get(x.s); !set || v.Value == "" {
 		return 0, true
-	} else if n, err := strconv.ParseInt(v.Value, 0, 0); err != nil {
+	} else if n, err := parseInt(v.Value); err != nil {
 		yylex.Error(fmt.Sprintf("invalid number %q", v.Value))
 		return 0, false
 	} else {
 		return int(n), true
 	}
+}
+
+// parseInt parses the value of a variable: a decimal, an octal (0) or a
+// hexadecimal (0x) constant with an optional sign. Base 0 of strconv also
+// knows 0b, 0o and underscores, which are not constants of the shell.
+func parseInt(s string) (int64, error) {
+	t := strings.TrimLeft(s, "+-")
+	if strings.Contains(s, "_") || len(t) > 1 && t[0] == '0' && strings.IndexByte("bBoO", t[1]) != -1 {
+		return 0, strconv.ErrSyntax
+	}
+	return strconv.ParseInt(s, 0, 0)
 }
 
 func calculate(yylex yyLexer, l expr, op string, r expr) (x expr, ok bool) {
